@@ -468,6 +468,9 @@ func ConnReplay(msgs []*Exp, rng *rand.Rand, j *sess.Journal, tracking bool) ([]
 		if !seenCmd[e.Cmd] {
 			seenCmd[e.Cmd] = true
 			s.C.HandleFunc(e.Cmd, func(c *client.Conn, l *client.Line) {
+				if strings.HasPrefix(l.Raw, "PING :sync-") {
+					return // the harness' own synchronisation line (still in its foreground phase when we registered)
+				}
 				mu.Lock()
 				got[cur] = append(got[cur], l)
 				mu.Unlock()
